@@ -114,6 +114,9 @@ func (s *RelationshipPatternVisitor) EnterOC_RangeLiteral(ctx *parser.OC_RangeLi
 	// Start at the start state for the mini-parser below
 	state := stateStart
 
+	// A single index without a range operator is an exact length: *2 is *2..2, not *2..
+	hasRangeOperator := false
+
 	for _, tokenLeaf := range ctx.GetChildren() {
 		switch typedTokenLeaf := tokenLeaf.(type) {
 		case *antlr.TerminalNodeImpl:
@@ -123,6 +126,7 @@ func (s *RelationshipPatternVisitor) EnterOC_RangeLiteral(ctx *parser.OC_RangeLi
 
 			case TokenTypeRange:
 				state = stateSecondIndex
+				hasRangeOperator = true
 
 			default:
 				s.ctx.AddErrors(fmt.Errorf("unexpected token in pattern range: %s", typedTokenLeaf.GetText()))
@@ -144,6 +148,11 @@ func (s *RelationshipPatternVisitor) EnterOC_RangeLiteral(ctx *parser.OC_RangeLi
 				}
 			}
 		}
+	}
+
+	if startIndex := s.RelationshipPattern.Range.StartIndex; startIndex != nil && !hasRangeOperator {
+		endIndex := *startIndex
+		s.RelationshipPattern.Range.EndIndex = &endIndex
 	}
 }
 
